@@ -1,0 +1,134 @@
+// SPDX-License-Identifier: BSL-1.1 OR Apache-2.0
+//! Lock aliases for the slabs behind `SlabRouter`.
+//!
+//! In normal builds these are `parking_lot::{Mutex, RwLock}`. With the
+//! `neumann_verif` feature they are thin wrappers whose acquisitions are
+//! schedule points for a deterministic simulator (see `verif_hooks`): the
+//! hook is called before each acquisition and, on a thread the simulator
+//! schedules, the lock is taken with `try_*` in a yield loop, so a holder
+//! parked at a schedule point never blocks the run. Guards are the plain
+//! `parking_lot` guards; everything else is reached through `Deref`.
+
+#[cfg(not(feature = "neumann_verif"))]
+pub use parking_lot::{Mutex, RwLock};
+
+#[cfg(feature = "neumann_verif")]
+pub use self::verif_compat::{Mutex, RwLock};
+
+#[cfg(feature = "neumann_verif")]
+mod verif_compat {
+    use std::{
+        fmt,
+        ops::{Deref, DerefMut},
+    };
+
+    use crate::verif_hooks::yield_point;
+
+    pub struct RwLock<T>(parking_lot::RwLock<T>);
+
+    impl<T> RwLock<T> {
+        pub const fn new(t: T) -> Self {
+            Self(parking_lot::RwLock::new(t))
+        }
+
+        pub fn read(&self) -> parking_lot::RwLockReadGuard<'_, T> {
+            if yield_point("store.lock") {
+                loop {
+                    if let Some(guard) = self.0.try_read() {
+                        return guard;
+                    }
+                    if !yield_point("store.lock.wait") {
+                        break;
+                    }
+                }
+            }
+            self.0.read()
+        }
+
+        pub fn write(&self) -> parking_lot::RwLockWriteGuard<'_, T> {
+            if yield_point("store.lock") {
+                loop {
+                    if let Some(guard) = self.0.try_write() {
+                        return guard;
+                    }
+                    if !yield_point("store.lock.wait") {
+                        break;
+                    }
+                }
+            }
+            self.0.write()
+        }
+    }
+
+    impl<T> Deref for RwLock<T> {
+        type Target = parking_lot::RwLock<T>;
+        fn deref(&self) -> &Self::Target {
+            &self.0
+        }
+    }
+
+    impl<T> DerefMut for RwLock<T> {
+        fn deref_mut(&mut self) -> &mut Self::Target {
+            &mut self.0
+        }
+    }
+
+    impl<T: Default> Default for RwLock<T> {
+        fn default() -> Self {
+            Self::new(T::default())
+        }
+    }
+
+    impl<T: fmt::Debug> fmt::Debug for RwLock<T> {
+        fn fmt(&self, f: &mut fmt::Formatter<'_>) -> fmt::Result {
+            self.0.fmt(f)
+        }
+    }
+
+    pub struct Mutex<T>(parking_lot::Mutex<T>);
+
+    impl<T> Mutex<T> {
+        pub const fn new(t: T) -> Self {
+            Self(parking_lot::Mutex::new(t))
+        }
+
+        pub fn lock(&self) -> parking_lot::MutexGuard<'_, T> {
+            if yield_point("store.lock") {
+                loop {
+                    if let Some(guard) = self.0.try_lock() {
+                        return guard;
+                    }
+                    if !yield_point("store.lock.wait") {
+                        break;
+                    }
+                }
+            }
+            self.0.lock()
+        }
+    }
+
+    impl<T> Deref for Mutex<T> {
+        type Target = parking_lot::Mutex<T>;
+        fn deref(&self) -> &Self::Target {
+            &self.0
+        }
+    }
+
+    impl<T> DerefMut for Mutex<T> {
+        fn deref_mut(&mut self) -> &mut Self::Target {
+            &mut self.0
+        }
+    }
+
+    impl<T: Default> Default for Mutex<T> {
+        fn default() -> Self {
+            Self::new(T::default())
+        }
+    }
+
+    impl<T: fmt::Debug> fmt::Debug for Mutex<T> {
+        fn fmt(&self, f: &mut fmt::Formatter<'_>) -> fmt::Result {
+            self.0.fmt(f)
+        }
+    }
+}
